@@ -5,7 +5,7 @@
    unconditional statements about the model that the correspondence check ties to xDSL. *)
 From Coq Require Import List Arith Bool ZArith.
 From XV Require Import C11.ProofsWL.
-From XV Require Import Base.Show C11.Model C11.IR C11.Enc C11.Proofs C11.ProofsIR.
+From XV Require Import Base.Show C11.Model C11.IR C11.Enc C11.Proofs C11.ProofsIR C11.ProofsEv C11.ProofsLive.
 Arguments ws_c {M} _.
 Arguments ws_inv {M} _.
 Import ListNotations.
@@ -54,6 +54,13 @@ Theorem C11_events_complete_partial : forall (M : Sem), EvLaws M -> forall a c r
 Proof. exact events_complete. Qed.
 Print Assumptions C11_events_complete_partial.
 
+(* ... and unconditionally for the heap model that is run against xDSL (EvLaws is proved for it) *)
+Theorem C11_events_complete_partial_model : forall a c r c1 r1 t o,
+  no_silent_rewrite a -> exec cir_sem true a c r = (c1, r1, t) -> changed cir_sem c c1 o ->
+  covered cir_sem (action_news a) t o.
+Proof. exact (events_complete cir_sem cir_ev_laws). Qed.
+Print Assumptions C11_events_complete_partial_model.
+
 (* inline_block(block, ip, arg_values) rewrites the operands of the users of the block arguments
    and calls no listener at all. *)
 Theorem C11_events_complete_refuted :
@@ -77,6 +84,21 @@ Theorem C11_no_stale : forall (M : Sem) (wf : C M -> Prop) (ip_ok : C M -> ipoin
   forall o c', In (o, c') (ws_inv s) -> In o (alive M c').
 Proof. exact no_stale. Qed.
 Print Assumptions C11_no_stale.
+
+(* For the heap model the structural half of LiveLaws is proved for every primitive (only erase kills
+   operations, and only those of op.walk(); a region-less op's walk is itself; inserted ops are alive
+   when the insertion point exists).  What remains a hypothesis is InvLaws: an invariant `wf` of the
+   heap -- use lists name only live users, the region walk yields only live ops -- preserved by the
+   thirteen primitives (IR tree / use-def consistency, the subject of property C01). *)
+Theorem C11_no_stale_model_partial : forall (wf : cir -> Prop), InvLaws cir_sem wf ->
+  forall n fuel cf m pick c s ret,
+  matcher_pre cir_sem wf cir_ip_ok m -> wf c ->
+  rewrite_region cir_sem true n fuel cf m pick c = Some (s, ret) ->
+  forall o c', In (o, c') (ws_inv s) -> In o (alive cir_sem c').
+Proof.
+  exact (fun wf I => no_stale cir_sem wf cir_ip_ok (live_laws_of cir_sem wf cir_ip_ok cir_struct_laws I)).
+Qed.
+Print Assumptions C11_no_stale_model_partial.
 
 (* ---- fixpoint ---- *)
 
@@ -155,6 +177,14 @@ Print Assumptions C11_worklist_is_C12_set_stack.
 Theorem C11_flag_laws_hold_for_the_model : FlagLaws cir_sem.
 Proof. exact cir_flag_laws. Qed.
 Print Assumptions C11_flag_laws_hold_for_the_model.
+
+Theorem C11_ev_laws_hold_for_the_model : EvLaws cir_sem.
+Proof. exact cir_ev_laws. Qed.
+Print Assumptions C11_ev_laws_hold_for_the_model.
+
+Theorem C11_struct_laws_hold_for_the_model : StructLaws cir_sem cir_ip_ok.
+Proof. exact cir_struct_laws. Qed.
+Print Assumptions C11_struct_laws_hold_for_the_model.
 
 Theorem C11_laws_satisfiable :
   FlagLaws toy_sem /\ LiveLaws toy_sem (fun _ => True) (fun _ _ => True) /\ EvLaws toy_sem.
